@@ -106,3 +106,55 @@ Definition ex_dump : dump :=
     [ex_machine; ex_pu; ex_numa].
 Example wf_example : wf_check ex_dump = [] /\ WF ex_dump.
 Proof. assert (H : wf_check ex_dump = []) by (vm_compute; reflexivity). split; [exact H|apply wf_check_sound, H]. Qed.
+
+(* ---------- set post-processing of hwloc_discover (model: Topo/Sets.v, tied to the
+   C code at the phase boundaries 1 -> 2 and 5 -> final on every loaded topology) ---------- *)
+From HV Require Import Topo.Sets Topo.SetsProofs.
+
+(* propagate_nodeset: for every tree, the nodeset of each object is exactly
+   inherited + locally attached + normal children's; children inherit. *)
+Theorem nodesets_inherited_local_children : forall o pn, NodesetOK pn (propagate_nodeset pn o).
+Proof. exact propagate_nodeset_ok. Qed.
+Print Assumptions nodesets_inherited_local_children.
+
+Theorem nodeset_exact_union : forall pn d n m i x j,
+  NodesetOK pn (Obj d n m i x) ->
+  mem j (oset (o_nds d)) = mem j pn || existsb (fun c => mem j (onds c)) m || existsb (fun c => mem j (onds c)) n.
+Proof. exact nodeset_ok_exact. Qed.
+Print Assumptions nodeset_exact_union.
+
+Theorem child_nodeset_in_parent : forall pn d n m i x c,
+  NodesetOK pn (Obj d n m i x) -> In c n -> sub (onds c) (oset (o_nds d)).
+Proof. exact nodeset_ok_child_in_parent. Qed.
+Print Assumptions child_nodeset_in_parent.
+
+(* fixup_sets: each set included in the parent's and in its complete_
+   counterpart; memory children share the parent's cpuset *)
+Theorem fixup_sets_inclusions : forall o pcs pccs pnds pcnds,
+  PreOK o -> sub pcs pccs -> sub pnds pcnds ->
+  FixOK pcs pccs pnds pcnds (fixup_child pcs pccs pnds pcnds o).
+Proof. exact fixup_child_ok. Qed.
+Print Assumptions fixup_sets_inclusions.
+
+(* remove_unused_sets: every cpuset/nodeset is within the allowed sets *)
+Theorem sets_within_allowed : forall acpu anode o, AllowedOK acpu anode (remove_unused_sets acpu anode o).
+Proof. exact remove_unused_sets_ok. Qed.
+Print Assumptions sets_within_allowed.
+
+(* propagate_total_memory: total_memory is the sum of NUMA local memory below *)
+Theorem total_memory_is_sum : forall o, TmOK (propagate_total_memory o).
+Proof. exact propagate_total_memory_ok. Qed.
+Print Assumptions total_memory_is_sum.
+
+(* Non-vacuity of PreOK/sub hypotheses: the example tree above with sets *)
+Example fixup_example :
+  let leaf := Obj (set_sets (ex_d 3 HWLOC_OBJ_PU) (Some (bs_single 0)) None None None) [] [] [] [] in
+  PreOK leaf /\ sub (bs_single 0) (bs_of_N 3) /\
+  FixOK (bs_single 0) (bs_of_N 3) bs_empty bs_empty (fixup_child (bs_single 0) (bs_of_N 3) bs_empty bs_empty leaf).
+Proof.
+  intros leaf.
+  assert (P : PreOK leaf) by (constructor; [intros c H; discriminate|intros c H; discriminate|constructor|constructor]).
+  assert (S : sub (bs_single 0) (bs_of_N 3)).
+  { intros i H. rewrite mem_single in H. apply N.eqb_eq in H. subst. reflexivity. }
+  split; [exact P|]. split; [exact S|]. apply fixup_child_ok; [exact P|exact S|apply sub_refl].
+Qed.
